@@ -84,6 +84,7 @@ class SamplerState:
         self.served = 0
         self.cap = cap
         self.overflow = False
+        self.over = None
 
     def compute(self, clauses, sampling_set):
         if self.models is not None:
